@@ -163,6 +163,32 @@ CLAIMS = {
              'verdict dispatch, exhaustive over AuthorizationTypes (R5).',
         technique='must-pass-through (dominating facts) + who-may-construct/call + table constraints + dispatch effects (ast)',
         design='4/C13'),
+    'C15': dict(
+        text='Agreement on every state vector is NOT decided beyond the decision structure. Decided for every formula and '
+             'path: every access of the evaluator on the attacker-chosen AST is justified by a dominating type fact '
+             '(ASDL of the running interpreter) (R1); stored formulas are single expressions (R2); only the evaluator\'s '
+             'own error can leave it - explicit raises and re.error - and it becomes a major failure (R3); the single '
+             'eval() is the only dynamic sink, interpolating a whitelisted name and boolean-only producers, other node '
+             'types refused (R4); state priority decision list (R5); failure classification facts (R6).',
+        technique='typed-AST access check against the interpreter ASDL + escape analysis with implicit raisers + sink discipline (ast)',
+        design='4/C15'),
+    'C18': dict(
+        text='XSD semantics and the # / @ arithmetic are NOT decided. Decided for every rules document / option '
+             'dictionary: domain guards dominate every store of the loaders and the enum class agrees with the '
+             'attribute annotation (R1); exact name before patterns, longest capture, invalid pattern skipped (R2); '
+             'ranking argument for the model recursion, depth 3, referenced model loaded first (R3); dependency checks on '
+             'every path, exact reset conditions (R4); all options through _get_value, converters let only ValueError '
+             'out, intervals equal to docs/configuration.rst and NaN-safe (R5); check_options consistency rules (R6).',
+        technique='interval/guard facts at stores + ranking argument + escape analysis of converters + docs/code interval agreement (ast)',
+        design='4/C18'),
+    'C20': dict(
+        text='Numeric sanity (CPU in [0,100], finite rates) is NOT decided. Decided for every sample stream: every append '
+             'on a history list is followed by trunc_depth on the same list with the configured depth (R1); every growth '
+             'is behind the period gate, helpers only reachable from gated sites, reference rollover (R2); alignment by '
+             'construction of time and value series (R3); history dropped on pid 0 / PID change / empty holder, the '
+             'collector evicts the entry it found (R4); wrap guard on both counters (R5).',
+        technique='append/truncate pairing + interprocedural dominance by the period gate + construction-shape checks (ast)',
+        design='4/C20'),
 }
 
 PENDING_REASON = 'check not implemented yet in this revision (static rules designed in DESIGN.md section 4)'
